@@ -53,6 +53,31 @@ func GenHandoffWorld(t *rapid.T, pf Profile) *World {
 			w.ExtraBindRequests = append(w.ExtraBindRequests, rb)
 		}
 	}
+	// a sharer that is being bound may still carry the GPU-group label of an earlier, abandoned attempt (the binder's
+	// rollback could not remove it); the live request's groups are what is charged
+	for gi := range w.Groups {
+		g := &w.Groups[gi]
+		for pi := range g.Pods {
+			p := &g.Pods[pi]
+			binding := p.State == Binding && len(p.Groups) > 0
+			// ... and so may a sharer whose request failed for good and which waits to be scheduled again
+			abandoned := p.State == Pending && (p.Fraction != "" || p.GPUMemory > 0)
+			if !(binding || abandoned) || !chance(t, 5, "staleGroupLabel") {
+				continue
+			}
+			labels := map[string]string{}
+			for k, v := range p.Labels {
+				labels[k] = v
+			}
+			stale := "stale-" + p.Name
+			if p.Devices > 1 {
+				labels[GPUGroupLabel+"/"+stale] = stale
+			} else {
+				labels[GPUGroupLabel] = stale
+			}
+			p.Labels = labels
+		}
+	}
 	for ci := range w.Cycles {
 		if len(nodes) > 1 && chance(t, 3, "nodeLeaves") {
 			w.Cycles[ci].DeleteNodes = []string{nodes[uniform(t, len(nodes), "leavingNode")]}
@@ -112,7 +137,7 @@ func JudgeHandoff(w *World) *Verdict {
 			v.Findings = append(v.Findings, Finding{Sig: sig, Msg: fmt.Sprintf(format, a...), Cycle: cycle})
 		}
 	}
-	live, gone, terminal, liveWithNeighbour, liveWithClaims := 0, 0, 0, 0, 0
+	live, gone, terminal, liveWithNeighbour, liveWithClaims, liveWithStaleLabel := 0, 0, 0, 0, 0, 0
 	for ci, rec := range h.Cycles {
 		if rec.OpenErr != "" || rec.Panic != "" || rec.Hung || rec.Starved || rec.After == nil {
 			continue
@@ -170,6 +195,9 @@ func JudgeHandoff(w *World) *Verdict {
 				got := append([]string(nil), tv.Groups...)
 				sort.Strings(want)
 				sort.Strings(got)
+				if len(want) > 0 && len(PodGroups(pv.Raw)) > 0 {
+					liveWithStaleLabel++
+				}
 				if len(want) > 0 && strings.Join(want, ",") != strings.Join(got, ",") {
 					add(ci, "c12-live-request-gpu-groups-not-charged", "BindRequest %s selects GPU groups %v, the snapshot charges pod %s to %v", br.Name, want, br.Spec.PodName, got)
 				}
@@ -203,6 +231,9 @@ func JudgeHandoff(w *World) *Verdict {
 	}
 	if liveWithClaims > 0 {
 		v.Classes = append(v.Classes, "live-request-with-dra-claim")
+	}
+	if liveWithStaleLabel > 0 {
+		v.Classes = append(v.Classes, "live-request-of-sharer-with-stale-group-label")
 	}
 	if gone > 0 {
 		v.Classes = append(v.Classes, "request-for-vanished-node")
